@@ -3,6 +3,7 @@ package c04
 
 import (
 	"bytes"
+	"encoding/json"
 	"errors"
 	"fmt"
 	"strings"
@@ -28,16 +29,37 @@ var vars = []string{"A", "B", "C", "HOME", "UNSET1", "X_1"}
 // expansion pass would be visible
 var envValues = map[string]string{"A": "a-val", "B": "$A", "C": "$$A and ${HOME}", "HOME": "/home/u", "X_1": ""}
 
-type tstats struct{ refs, escapes, failing int }
+type tstats struct {
+	refs, escapes, failing, nkey int
+	// failing forms are drawn only in documents that allow them (one in four), so that most
+	// documents exercise the value comparison rather than the error path
+	allowFail bool
+}
 
 // whole strings that are exactly one reference, or exactly the value / the text another one expands
 // to: with these among the keys of one mapping, the expansion of one key can equal the not yet
 // expanded text of another (renaming collisions), and values equal raw references
 var pureRefs = []string{"$B", "$A", "${B}", "${A}", "$C", "$HOME", "a-val", "/home/u", "$$A and ${HOME}", "$X_1"}
 
+var pureKeyRefs = []string{"$B", "$A", "$C", "$HOME", "$$A and ${HOME}"}
+
 func template(t *rapid.T, label string, st *tstats) string {
-	if rapid.IntRange(0, 9).Draw(t, label+"pure") == 4 {
-		s := rapid.SampledFrom(pureRefs).Draw(t, label+"pureref")
+	isKey := label == "anykey" || label == "envkey" || label == "dim"
+	if isKey && rapid.IntRange(0, 9).Draw(t, label+"pure") != 4 {
+		// mapping keys carry a literal prefix that is unique in the document, so that two keys of one
+		// mapping cannot expand to the same text (colliding expanded keys are outside the property and
+		// would exclude the whole document); one key in ten is a pure reference instead
+		st.nkey++
+		return fmt.Sprintf("k%d", st.nkey) + template(t, label+"-tail", st)
+	}
+	if isKey || rapid.IntRange(0, 9).Draw(t, label+"pure") == 4 {
+		from := pureRefs
+		if isKey {
+			// mapping keys: pure references whose expansions differ pairwise (colliding expanded keys
+			// are outside the property and would exclude the document)
+			from = pureKeyRefs
+		}
+		s := rapid.SampledFrom(from).Draw(t, label+"pureref")
 		if strings.Contains(s, "$") {
 			st.refs++
 		}
@@ -82,7 +104,7 @@ func template(t *rapid.T, label string, st *tstats) string {
 			b.WriteString("${" + v + ":-$A}")
 			st.refs++
 		case k == 38:
-			if rapid.IntRange(0, 3).Draw(t, "rarefail") == 0 {
+			if st.allowFail && rapid.IntRange(0, 3).Draw(t, "rarefail") == 0 {
 				b.WriteString(rapid.SampledFrom([]string{"${UNSET1?}", "$(", "${", "${A"}).Draw(t, "failing"))
 				st.failing++
 			}
@@ -90,7 +112,12 @@ func template(t *rapid.T, label string, st *tstats) string {
 			b.WriteString(rapid.SampledFrom([]string{"$", "$ ", "a$", "$1", "$-"}).Draw(t, "lone"))
 		}
 	}
-	return b.String()
+	s := b.String()
+	if !st.allowFail {
+		// a lone `$` followed by the literal {{matrix}} reads as the (failing) start of `${...}`
+		s = strings.ReplaceAll(s, "${{", "$ {{")
+	}
+	return s
 }
 
 // expandTree applies the single-pass expansion to every string (keys and
@@ -163,7 +190,7 @@ var rec = ev.New("TestPropEveryStringOnce", "grammar-generated pipelines (all st
 
 func TestPropEveryStringOnce(t *testing.T) {
 	ev.Check(t, 1000, 10000, func(t *rapid.T) {
-		st := &tstats{}
+		st := &tstats{allowFail: rapid.IntRange(0, 3).Draw(t, "allowfail") == 2}
 		cfg := doc.Config{
 			Str:       func(t *rapid.T, role string) string { return template(t, role, st) },
 			PluginSrc: func(t *rapid.T) string { return "plug" + template(t, "src", st) },
@@ -286,4 +313,161 @@ func TestCorpusEscapes(t *testing.T) {
 		t.Fatalf("agents: %s", d)
 	}
 	_ = errors.New
+}
+
+// ---------------------------------------------------------------------------
+// With a pipeline env block: the block is folded top to bottom (C10 decides its details), and every
+// other string equals the single-pass expansion under the environment in force AFTER the block -
+// whatever texts the block and the rest of the pipeline have in common.
+
+var recBlock = ev.New("TestPropEnvBlockThenRest", "pipelines with a top-level env block of 1-6 entries (literal names V1..V4, A, HOME; values from a per-case pool of 4-9 templates) and steps / plugin configs / unknown fields / groups / top-level extras whose strings - keys and values - are drawn from the SAME small pool, so that the same text occurs before and after the entry that (re)defines a variable it mentions (forward references, redefinitions, runtime overlaps with and without runtime precedence); oracle = in-order fold of the block (each value expanded under caller env + earlier entries, runtime precedence honoured) then interpolate.Interpolate under the resulting environment applied string by string to an object-model walk; non-trivial = some text that mentions a block variable occurs both in or before the defining entry and after it; distinct by hash of the document")
+
+func TestPropEnvBlockThenRest(t *testing.T) {
+	blockNames := []string{"V1", "V2", "V3", "V4", "A", "HOME"}
+	ev.Check(t, 1500, 20000, func(t *rapid.T) {
+		st := &tstats{}
+		// the pool of texts shared by the env block and the rest of the pipeline
+		np := rapid.IntRange(4, 9).Draw(t, "npool")
+		var pool []string
+		seen := map[string]bool{}
+		for len(pool) < np {
+			var s string
+			switch rapid.IntRange(0, 5).Draw(t, "poolkind") {
+			case 0, 1, 2:
+				v := rapid.SampledFrom(blockNames).Draw(t, "pv")
+				s = fmt.Sprintf(rapid.SampledFrom([]string{"$%s", "${%s}", "img:${%s}", "${%s:-none}", "${%s-d}", "x-$%s-y", "$$%s", "${%s:1:2}"}).Draw(t, "pform"), v)
+			case 3:
+				s = rapid.SampledFrom(pureRefs).Draw(t, "ppure")
+			default:
+				s = template(t, "pool", st)
+			}
+			if strings.Contains(s, "${UNSET1?}") || strings.Contains(s, "$(") || strings.HasSuffix(s, "${") || strings.HasSuffix(s, "${A") {
+				continue // failing forms are the main test's business
+			}
+			if _, err := interpolate.Interpolate(envx.New(false, envValues), s); err != nil {
+				continue
+			}
+			if !seen[s] {
+				seen[s] = true
+				pool = append(pool, s)
+			}
+		}
+		pick := func(label string) string { return rapid.SampledFrom(pool).Draw(t, label) }
+		distinct := func(label string, n int) []string {
+			perm := rapid.Permutation(pool).Draw(t, label)
+			return perm[:min(n, len(perm))]
+		}
+		q := func(s string) string { b, _ := json.Marshal(s); return string(b) }
+		obj := func(keys []string, val func(i int) string) string {
+			parts := make([]string, len(keys))
+			for i, k := range keys {
+				parts[i] = q(k) + ": " + val(i)
+			}
+			return "{" + strings.Join(parts, ", ") + "}"
+		}
+		// env block
+		nb := rapid.IntRange(1, 6).Draw(t, "nblock")
+		names := rapid.Permutation(blockNames).Draw(t, "bnames")[:nb]
+		type ent struct{ k, v string }
+		var block []ent
+		for _, n := range names {
+			block = append(block, ent{n, pick("bval")})
+		}
+		var b strings.Builder
+		b.WriteString("{\"env\": " + obj(names, func(i int) string { return q(block[i].v) }))
+		// steps
+		b.WriteString(", \"steps\": [")
+		ns := rapid.IntRange(1, 4).Draw(t, "nsteps")
+		for i := 0; i < ns; i++ {
+			if i > 0 {
+				b.WriteString(", ")
+			}
+			switch rapid.IntRange(0, 5).Draw(t, "skind") {
+			case 0:
+				b.WriteString(`"wait"`)
+			case 1:
+				b.WriteString(`{"group": ` + q(pick("g")) + `, "steps": [{"command": ` + q(pick("gc")) + `, "label": ` + q(pick("gl")) + `}]}`)
+			case 2:
+				b.WriteString(`{"trigger": ` + q(pick("tr")) + `, "build": ` + obj(distinct("tbk", 2), func(int) string { return q(pick("tbv")) }) + `}`)
+			default:
+				ek := distinct("envk", rapid.IntRange(0, 2).Draw(t, "nenv"))
+				ck := distinct("cfgk", rapid.IntRange(0, 3).Draw(t, "ncfg"))
+				ak := distinct("agk", rapid.IntRange(0, 3).Draw(t, "nag"))
+				b.WriteString(`{"command": ` + q(pick("cmd")) + `, "label": ` + q(pick("lbl")) +
+					`, "env": ` + obj(ek, func(int) string { return q(pick("envv")) }) +
+					`, "plugins": [{` + q("plug#"+pick("src")) + `: ` + obj(ck, func(int) string { return q(pick("cfgv")) }) + `}]` +
+					`, "agents": ` + obj(ak, func(int) string { return "[" + q(pick("agv")) + ", " + q(pick("agv2")) + "]" }) + `}`)
+			}
+		}
+		b.WriteString("]")
+		xk := distinct("xk", rapid.IntRange(0, 2).Draw(t, "nx"))
+		if len(xk) > 0 {
+			b.WriteString(`, "x-extra": ` + obj(xk, func(int) string { return q(pick("xv")) }))
+		}
+		b.WriteString("}")
+		text := b.String()
+		prefer := rapid.Bool().Draw(t, "prefer")
+
+		p, err := pipeline.Parse(strings.NewReader(text))
+		if err != nil {
+			t.Fatalf("Parse: %v\n%s", err, text)
+		}
+		before := canon.Pipeline(p, canon.Raw)
+		// model: fold the block, then expand the rest
+		env := envx.New(false, envValues)
+		wantBlock := gt.MapN(true)
+		for _, e := range block {
+			v, ierr := interpolate.Interpolate(env, e.v)
+			if ierr != nil {
+				t.Fatalf("harness: pool text %q fails under the evolving environment: %v", e.v, ierr)
+			}
+			wantBlock.Put(e.k, gt.StrN(v))
+			if _, exists := env.Get(e.k); !(prefer && exists) {
+				env.Set(e.k, v)
+			}
+		}
+		rest := before.Clone()
+		rest.Del("env")
+		var wantErr error
+		want := expandTree(rest, env, &wantErr, false)
+		if wantErr != nil {
+			recBlock.Excluded("a pool text fails to expand once the block has defined its variables")
+			return
+		}
+		if dupKeys(want) {
+			recBlock.Excluded("expanded keys collide within one mapping")
+			return
+		}
+		callerEnv := envx.New(false, envValues)
+		if ierr := p.Interpolate(callerEnv, prefer); ierr != nil {
+			t.Fatalf("Interpolate returned %v, but every string expands without error\nprefer=%v\n%s", ierr, prefer, text)
+		}
+		after := canon.Pipeline(p, canon.Raw)
+		gotBlock, _ := after.Get("env")
+		if d := gt.Diff(wantBlock, gotBlock, gt.Opt{}); d != "" {
+			t.Fatalf("env block after interpolation differs from the in-order fold: %s\nprefer=%v\n%s", d, prefer, text)
+		}
+		after.Del("env")
+		if d := gt.Diff(want, after, gt.Opt{}); d != "" {
+			t.Fatalf("after interpolation the pipeline differs from the single-pass expansion of every string under the environment left by the env block: %s\nprefer=%v\n%s", d, prefer, text)
+		}
+		// non-trivial: a text mentioning block variable X is used in the block at or before X's entry and again after it
+		nt := false
+		for i, e := range block {
+			for j := i; j < len(block); j++ {
+				if strings.Contains(e.v, block[j].k) && strings.Contains(e.v, "$") {
+					for _, later := range block[j+1:] {
+						if later.v == e.v {
+							nt = true
+						}
+					}
+					if strings.Count(text, q(e.v)) > 1 {
+						nt = true
+					}
+				}
+			}
+		}
+		recBlock.Case(ev.HashStr(text), nt, fmt.Sprintf("prefer=%v", prefer), fmt.Sprintf("block=%d", len(block)))
+		recBlock.MaybeSample(nt, func() any { return map[string]any{"document": text, "prefer": prefer} })
+	})
 }
